@@ -356,6 +356,23 @@ theorem asmW_perm (P : AsmParams) {g g' : Genotype} (h : g.Perm g') : asmW P g =
   unfold asmW
   rw [C04.lik_perm_haps P.reads P.nb h, assemblePrior_dosage_perm P.U P.F h]
 
+/-! ### the exchange as a transition of the pair of chains -/
+
+/-- the exchange permutes the pair of chain states (nothing is created or lost), the likelihood each chain
+    carries afterwards is the likelihood of the state it now holds, and two accepted exchanges restore the pair -/
+theorem exchangeStep_spec (L : Genotype → ℚ) (gi gj : Genotype) (accept : Bool) :
+    let r := exchangeStep gi gj (L gi) (L gj) accept
+    (({r.1.1, r.2.1} : Multiset Genotype) = {gi, gj}) ∧ r.1.2 = L r.1.1 ∧ r.2.2 = L r.2.1 ∧
+    (accept = true → r.1.1 = gj ∧ r.2.1 = gi) ∧ (accept = false → r.1.1 = gi ∧ r.2.1 = gj) := by
+  cases accept
+  · simp [exchangeStep]
+  · simp [exchangeStep, Multiset.pair_comm gj gi]
+
+theorem exchangeStep_involutive (gi gj : Genotype) (li lj : ℚ) :
+    let r := exchangeStep gi gj li lj true
+    exchangeStep r.1.1 r.2.1 r.1.2 r.2.2 true = ((gi, li), (gj, lj)) := by
+  simp [exchangeStep]
+
 /-! ### the literal mutation kernel of the model -/
 
 /-- the option of `base_step` that proposes allele `a` at `(h, j)` -/
